@@ -143,6 +143,9 @@ static void check_stats(const std::string &prop, const MSignal &s, const Op &o, 
         long double tau = C * eps + (long double) inc * ldexpl(1, -52), alpha = (C * eps + (long double) inc * ldexpl(1, -52)) * mag + 1e-300L;   // accumulated rounding of n additions
         long double lo = sqrtl((dmin - 1) / dmin) * sigma * (1 - tau) - alpha, hi = sigma * (1 + tau) + alpha;
         if (inc == 1) { lo = -alpha; }
+        // A single window of fewer than 250 samples is always answered from the stored samples (a summary level needs increment >= decimation >= 10
+        // and 25 decimations of duration): there the std is the sample std itself, computed in double - no summary precision, no decimation factor.
+        if (inc > 1 && inc < 250 && dt_bits[s.dtype] < 64) { long double a0 = mag * ldexpl(1, -40) + 1e-300L; lo = sigma * (1 - 1e-9L) - a0; hi = sigma * (1 + 1e-9L) + a0; }
         if (!((long double) sd >= lo && (long double) sd <= hi)) {
             add_violation(v, prop, "stats_std", fmt("sig=%d %s start=%lld inc=%lld: std=%.17g true sample std=%.17Lg bounds=[%.17Lg,%.17Lg]", s.id, dt_name[s.dtype], (long long) o.a, (long long) inc, sd, sigma, lo, hi), ri);
         }
